@@ -16,14 +16,14 @@ T = {
          'Rocq theorems over the builder model + regenerated translation of the emitted parser + correspondence'),
  'C02': ('Coq theorem: every valid builder history refines the reference tree model without panic and root-closing yields the pre-order layout of the reference tree (unbounded); per-run ghost discipline + K1/K3 correspondence + structural oracle',
          'Rocq refinement proof (abstract builder) + translator/correspondence'),
- 'C03': ('translation validation: emitted parser translated to the Exec.v command language and run against the compiled parser (fuel exhaustion vs watchdog); catch_unwind/watchdog oracle; one Coq theorem (a result other than fuel exhaustion is the same for every larger fuel)',
-         'translator + correspondence (Rocq model Exec.v), totality oracle'),
+ 'C03': ('translation validation: emitted parser translated to the Exec.v command language and run against the compiled parser (fuel exhaustion vs watchdog); catch_unwind/watchdog oracle; back-end model Compile.v tied by program equality (KB); Coq theorems for two clauses: a result other than fuel exhaustion is the same for every larger fuel, and the loop the back end emits for a repetition/option is left without consuming when the current token is in its follow or recovery set and cannot start the body (the end-of-input clause)',
+         'translator + K3/KB correspondence (Rocq models Exec.v, Compile.v), totality oracle; Rocq theorems for two clauses'),
  'C04': ('translation validation + Earley membership / prioritised reference interpreter; theorems pending',
          'translator + correspondence, Earley and reference-interpreter oracles'),
  'C05': ('translation validation + reference interpreter building the derivation tree with node operators; theorems pending',
          'translator + correspondence, reference interpreter'),
- 'C06': ('Coq theorem: diagnostics strictly increasing and in bounds for every program without assertions/ordered choice (certificate per translated parser), every input; first-error position by K3 correspondence + Earley viable-prefix oracle',
-         'translator + correspondence, viable-prefix oracle'),
+ 'C06': ('Coq theorems: diagnostics strictly increasing and in bounds for every program without assertion/ordered-choice statements, every input; the back-end model Compile.v produces only such programs for every grammar without ordered choice and assertions (no per-parser certificate), tied to src/backend/rust.rs by program equality with the translated emitted parser (KB); first-error position by K3 correspondence + Earley viable-prefix oracle',
+         'Rocq theorems over Exec.v and Compile.v + translator, K3/KB correspondence, viable-prefix oracle'),
  'C07': ('translation validation (program and analysis) + definitional precedence-consistency oracle; Coq theorems for the binding-power table only (earlier branch strictly tighter, left unless declared right, one swap)',
          'translator + K2/K3 correspondence, precedence oracle'),
  'C08': ('Coq theorems: an abandoned alternative restores position, token, diagnostics, error state and the abstract tree state exactly, for every program/input/oracle/fuel; callback balance and value semantics by K3 correspondence + reference interpreter',
@@ -34,32 +34,34 @@ T = {
          'Rocq model + K2 correspondence, definitional oracle'),
  'C11': ('Coq theorem on the driver model: no parser/skeleton/graph file for a rejected grammar (whole domain); "compiles" decided by rustc on every sampled accepted grammar incl. adversarial names; real binary for rejected ones',
          'Rocq proof over the driver table + rustc on emitted parsers'),
- 'C12': ('exploration: exhaustive short lexeme sequences, mutants, byte soup through the real front end under catch_unwind; span/tiling oracles; parser stage additionally tied to the Coq model (K3 on the checked-in src/frontend/generated.rs vs Exec.v, ghost defined on every run)',
-         'exhaustive/random exploration of the real front end'),
- 'C13': ('exploration: generator AST vs typed view of the real front end under random layouts',
-         'round-trip exploration'),
- 'C14': ('Coq theorems: the elimination loop computes exactly the dominators (paths in the predecessor graph) for every graph, iteration order and fuel - the fixpoint property of the result is proved - and recovery = union of dominator follow sets minus first/follow of the body; K2 correspondence + brute-force dominators on an independent graph',
-         'Rocq model + K2 correspondence, brute-force dominator oracle'),
+ 'C12': ('Coq theorems for the lexing stage (Lexer.v, tied to the logos lexer by correspondence on every explored text): token spans tile the text, every token and lexer-diagnostic span is non-empty, in bounds and on character boundaries, for all texts; parser stage tied to Exec.v (K3 on the checked-in src/frontend/generated.rs, ghost defined on every run, so the C01/C06 theorems apply to it); analysis stage and panic freedom by exhaustive short lexeme sequences, mutants and byte soup through the real front end under catch_unwind (exploration)',
+         'Rocq lexer model + correspondence; exploration of the real front end for the stages without a model'),
+ 'C13': ('Coq theorem for the lexing half (Lexer.v): every sequence of well-formed tokens written with any layout that satisfies an exact no-fusion side condition (separators may be empty wherever the neighbours cannot fuse; the condition is proved necessary) is read back as exactly those tokens and that trivia, with no diagnostic; the parsing half (tokens -> typed view) by generator AST vs typed view of the real front end under random layouts (exploration)',
+         'Rocq lexer read-back theorem + correspondence; round-trip exploration for the parser half'),
+ 'C14': ('Coq theorems: the elimination loop computes exactly the dominators (paths in the predecessor graph) for every graph, iteration order and fuel - the fixpoint property of the result is proved - and recovery = union of dominator follow sets minus first/follow of the body; the end-of-input token is in follow or recovery of every loop, and the emitted loop (Compile.c_recover, tied by KB) is left on such a token; K2 correspondence + brute-force dominators on an independent graph',
+         'Rocq model + K2/KB correspondence, brute-force dominator oracle'),
  'C15': ('partial: cross-process determinism and behaviour under permuted declarations observed on the real binary and compiled parsers; one Coq theorem (dominator sets independent of the hash iteration order)',
          'differential runs of the real binary and generated parsers'),
  'C16': ('translation validation + pairwise comparison of parses with and without trivia; Coq theorems for one clause only (the current token and the predicate lookahead are never skipped tokens, for every program/input)',
          'translator + K1/K3 correspondence, trivia-pair oracle'),
- 'C17': ('exploration: formatter on arbitrary texts (character preservation) and on valid grammars in random layouts (tokens, diagnostics)',
-         'exploration of the real formatter'),
- 'C18': ('partial by design (layout engine is an external crate): idempotence explored on random layouts and through the real CLI; known findings recorded',
-         'exploration of the real formatter and CLI'),
+ 'C17': ("Coq theorems over a model of the formatter's item generator (Fmt.v = src/backend/format.rs function by function, tied by an item-by-item correspondence through a cfg(lelwel_verif) hook): for every tree and source the string items carry exactly the non-whitespace characters of the token leaves in order, conditions carry no strings, no string contains tab/newline, indentation and newline groups are balanced on every consistent resolution, the generator panics exactly on Decl/Postfix/Regex nodes; lexer lossless theorem (Lexer.v) for the text -> tokens step, C01 for tokens -> tree. The layout engine (dprint-core printer) is outside the model: that its output has the non-whitespace characters of the items is checked per text. Token/diagnostic preservation on valid grammars by exploration",
+         'Rocq proofs over Fmt.v and Lexer.v + item-level correspondence; printer output checked per text'),
+ 'C18': ('partial by design (the layout engine is an external crate with width-dependent choices and save points; no Gallina model of it was built, so idempotence has no theorem): idempotence explored on random layouts and through the real CLI, known findings recorded; the item generator is tied to Fmt.v by the same correspondence as C17',
+         'exploration of the real formatter and CLI; Rocq model of the item generator tied by correspondence'),
  'C19': ('Coq theorem over the complete finite domain of the driver model (Cli.v); K5 runs the real binary on every realisable row and compares files and exit status',
          'Rocq proof by complete enumeration + exhaustive correspondence'),
- 'C20': ('exploration: protocol-conformant histories against ide::Cache in-process and the real lelwel-ls over stdio; oracles for crashes, diagnostics, definition/references, hover sets, ranges',
-         'exploration of the real language server'),
+ 'C20': ("Coq theorems over a model of the server's logic (Lsp.v: document store state machine and UTF-16 position conversion, tied to ide::Cache, compat::* (cfg hook) and the real lelwel-ls by correspondence): for every history the outputs are those of a specification that reads only the latest text of each document, conformant histories never crash, documents are independent, one publication per text notification; for every text/position/offset the conversions stay inside the document on character boundaries and round-trip (exact side condition). Diagnostics = CLI, definition/references agreement, hover sets, threads and transport: exploration of the real server",
+         'Rocq proofs over Lsp.v + correspondence with ide::Cache and lelwel-ls; exploration for analysis-dependent answers'),
 }
 
 
 # properties whose Props file proves one clause only: the claimed level stays the level of the rest
-PARTIAL_THEOREMS = ('C03', 'C07', 'C15', 'C16')
+PARTIAL_THEOREMS = ('C03', 'C07', 'C15', 'C16', 'C12', 'C13')
 
 
 def level(pid):
+    if pid in ('C12', 'C13'):
+        return 'exploration'
     if pid in PARTIAL_THEOREMS:
         return 'translation_validation'
     if os.path.exists(os.path.join(V, 'coq', 'Props', pid + '.v')):
@@ -69,6 +71,10 @@ def level(pid):
     if pid == 'C15':
         return 'translation_validation'
     return 'translation_validation'
+
+
+HOOK_COMMITS = ['6cbe329 hook: expose the formatter\'s print items for verification (cfg lelwel_verif)',
+                '50e6097 hook: expose position conversion for verification (cfg lelwel_verif)']
 
 
 def main():
@@ -82,8 +88,8 @@ def main():
             'level_claimed': {'category': level(pid), 'text': txt, 'design_ref': 'DESIGN.md section 6/' + pid},
             'level_note': NOTE, 'technique': tech})
     m = {'version': 1, 'setup_cmd': './setup.sh',
-         'hooks': {'guard': 'lelwel_verif', 'enable': "RUSTFLAGS='--cfg lelwel_verif' (set by tools/lv.py for every cargo build; no hook is needed so far)",
-                   'baseline_off_cmd': 'cd /repo && cargo test --workspace --no-fail-fast --offline', 'source_commits': [], 'add_only': True},
+         'hooks': {'guard': 'lelwel_verif', 'enable': "RUSTFLAGS='--cfg lelwel_verif' (set by tools/lv.py for every cargo build of /repo and of the harness)",
+                   'baseline_off_cmd': 'cd /repo && cargo test --workspace --no-fail-fast --offline', 'source_commits': HOOK_COMMITS, 'add_only': True},
          'engines': [{'name': 'rocq-model', 'path': '/verif/coq', 'serves_properties': sorted(T),
                       'kind_free_text': 'Coq 8.16 development (model + theorems), extracted OCaml driver, translator and correspondence harness'}],
          'checks': checks, 'not_applicable': [], 'notes': 'see DESIGN.md; levels are regenerated by tools/mkmanifest.py from what is proved'}
